@@ -125,6 +125,7 @@ def main(prop, tier, only=None, engine=None):
                     pure_ub = all(("dereference failure" in f["description"] or "pointer" in f["description"]) and
                                   "assertion failed" not in f["description"] for f in unmatched)
                     if reproduced:
+                        cnt["replayed"] = cnt.get("replayed", 0) + 1
                         for f in unmatched:
                             violations.append((h["name"], f["description"], replay_path))
                     elif pure_ub:
@@ -167,6 +168,8 @@ def main(prop, tier, only=None, engine=None):
                 if r["verdict"] == "inconclusive":
                     inconclusive.append((r["name"], r.get("why", "")))
                 elif r["verdict"] == "violation":
+                    cnt["checks"] += 1                                                       # a decided query (satisfiable: counterexample found)
+                    if r.get("replayed"): cnt["replayed"] = cnt.get("replayed", 0) + 1      # a solver-found schedule that the real code reproduced natively
                     kf = finding_for(known, prop, "M", r["name"], r.get("symptom", ""))
                     if kf:
                         if kf not in known_hits:
@@ -215,13 +218,15 @@ def main(prop, tier, only=None, engine=None):
         "level": "model_checking",
         "coverage": {
             "evaluations": max(1, checks_discharged) if (n_k + n_m) else 0,
-            "distinct_nontrivial": covers_sat,
+            "distinct_nontrivial": covers_sat + cnt.get("replayed", 0),
+            "traces_validated_against_impl": cnt.get("replayed", 0),
             "rule": ("solver-decided queries over the real code. evaluations = CBMC checks (engine K: every assertion, "
                      "overflow, bounds, pointer and unwinding check of every harness) plus SAT queries (engine M) that were "
                      "decided 'holds for all inputs/schedules within the bound'. A case is non-trivial and distinct when it is "
                      "a named reachability witness (kani::cover! in K; witness query in M) that the solver proved REACHABLE in "
                      "this run: each names a different interesting region (e.g. 'counter crossed 2^32 and a send was rejected'); "
-                     "distinct_nontrivial counts (harness, witness) pairs reported SATISFIED."),
+                     "distinct_nontrivial counts (harness, witness) pairs reported SATISFIED plus the counterexample schedules (of listed known findings, or of violations) "
+                     "that the real code reproduced natively under the controlled scheduler (= traces_validated_against_impl)."),
             "samples": samples,
             "harnesses_run": n_k,
             "mir_queries_run": n_m,
